@@ -94,6 +94,8 @@ class UserAddNode(ActionGroup):
 
         pred, succ = self.tracks.get_track_neighbors(track_id, time)
 
+        # collect the edges that conflict with the new node (removed when forcing)
+        conflicting_edges = []
         # check if you are adding a node to a track that divided previously
         if pred is not None and self.tracks.graph.out_degree(pred) == 2:
             if not force:
@@ -101,15 +103,8 @@ class UserAddNode(ActionGroup):
                     "Cannot add node here - upstream division event detected.",
                     forceable=True,
                 )
-            else:
-                # Delete both conflicting edges in the upstream division.
-                succ_of_pred1, succ_of_pred2 = self.tracks.successors(pred)
-                self.actions.append(
-                    UserDeleteEdge(tracks, (pred, succ_of_pred1), _top_level=False)
-                )
-                self.actions.append(
-                    UserDeleteEdge(tracks, (pred, succ_of_pred2), _top_level=False)
-                )
+            # Both edges of the upstream division conflict.
+            conflicting_edges = [(pred, s) for s in self.tracks.successors(pred)]
 
         # check if you are adding a node to a track of which the parent track will divide
         # downstream
@@ -125,11 +120,20 @@ class UserAddNode(ActionGroup):
                         "Cannot add node here - downstream division of parent detected.",
                         forceable=True,
                     )
-                else:
-                    # Delete the conflicting edge
-                    self.actions.append(
-                        UserDeleteEdge(tracks, (pred_of_succ, succ), _top_level=False)
-                    )
+                conflicting_edges = [(pred_of_succ, succ)]
+
+        # validate the new node before touching the tracks
+        pos_key = tracks.features.position_key
+        pos_keys = pos_key if isinstance(pos_key, list) else [pos_key]
+        if pixels is None and not all(key in attributes for key in pos_keys):
+            raise InvalidActionError(
+                f"Cannot add node {node} without position or segmentation"
+            )
+
+        for conflicting_edge in conflicting_edges:
+            self.actions.append(
+                UserDeleteEdge(tracks, conflicting_edge, _top_level=False)
+            )
 
         # Determine lineage_id from existing track nodes (if any)
         lineage_key = tracks.features.lineage_key
